@@ -33,6 +33,11 @@ CFG = {
         "Swat4.C10.holder_death_unblocks_writer",
         "Swat4.C10.blocked_while_held",
         "Swat4.C10.lockExpire_respects_ttl",
+        "Swat4.C10.holder_death_unblocks_of_ttl",
+        "Swat4.C10.no_ttl_blocks_forever",
+        "Swat4.C10.expire_no_ttl",
+        "Swat4.C10.lock_ttl_needs_positive_lease",
+        "Swat4.C10.expire_reachable_removes",
         "Swat4.C10.facts_batches_atomic_sites",
         "Swat4.C10.facts_batch_keys",
         "Swat4.C10.facts_lock_ttl_defs",
@@ -87,11 +92,12 @@ CFG = {
                 "and wstep_atomic - its store effect is nothing or exactly one atomic step; C10_main / C10_world - invariant along every "
                 "event list (any number of clients, any interleaving, expiry events, queue commands); C10_crash - hence after every prefix, "
                 "i.e. after a client death at any command boundary (a corollary of C10_main: the prefix hypothesis is not needed); lock_ttl - every "
-                "lock cell in every reachable state carries an expiry (true by construction of lockSetNX; tied to the code by facts_lock_ttl); "
-                "LockCell.ttl is decorative in the model (lockExpire does not read it), so 'no crash can block a server forever' is stated with the model's lease-expiry event: "
-                "blocked_while_held (while the cell exists another call's SET NX on that address changes nothing), holder_death_unblocks / holder_death_unblocks_writer (after Ev.expire k, "
-                "whoever held the cell and whether or not it is alive, the next SET NX on k by any client succeeds); the premise that the expiry event occurs (the key has a TTL) is pinned by facts_lock_ttl, not by the model; "
-                "lockExpire_respects_ttl (on reachable stores the model's expiry equals the TTL-respecting lockExpireTTL, under which a cell without TTL is never freed); "
+                "lock cell in every reachable state carries an expiry: lockSetNX writes ttl := leaseHasTTL = decide (0 < Facts.lockLeaseMs), the lease read from a real repository on every run (lock_ttl_needs_positive_lease: a cell with the flag off breaks Consistent); tied to the code syntactically by facts_lock_ttl; "
+                "the flag is READ by the model: lockExpire removes only a cell whose ttl flag is set (a Redis key without TTL never expires), so 'no crash can block a server forever' depends on it: "
+                "blocked_while_held (while the cell exists another call's SET NX on that address changes nothing), holder_death_unblocks / holder_death_unblocks_writer (in every reachable state, after Ev.expire k, "
+                "whoever held the cell and whether or not it is alive, the next SET NX on k by any client succeeds; premise 'the cell has a TTL' discharged by lock_ttl; holder_death_unblocks_of_ttl / expire_frees are the single step with the premise explicit); "
+                "no_ttl_blocks_forever / expire_no_ttl (the premise is needed: a cell without TTL survives any number of expiry events and keeps refusing SET NX); "
+                "lockExpire_respects_ttl / expire_reachable_removes (on reachable stores the expiry removes the cell exactly as the model did before the flag was read, so differential behaviour is unchanged); "
                 "facts_batches_atomic - the regenerated go/ast inventory of every Redis write call site of the three repositories and redislock: each "
                 "batch of the model is the set of pipe.X calls of exactly one TxPipelined closure, the only writes outside such a closure are Guard's "
                 "SetNX and release's Del (atomic steps of their own in the model), no writer uses a bare Pipelined; facts_lock_ttl - one SetNX whose TTL "
